@@ -55,6 +55,32 @@ def source_hash(paths):
     return h.hexdigest()[:16]
 
 
+def changed_sources():
+    """Source files of REPO whose content differs from tools/source_baseline.json (the tree every check was validated on);
+    [] when the record is missing.  Used by ./check to widen the quick tier's search on a changed tree."""
+    try:
+        base = json.load(open(os.path.join(ROOT, "tools", "source_baseline.json")))["files"]
+    except (OSError, ValueError, KeyError):
+        return []
+    out = []
+    seen = set()
+    for top in ("src", "include", "plugins", "tools", "data/minimal", "cmake"):
+        for d, _, fs in os.walk(os.path.join(REPO, top)):
+            for f in fs:
+                p = os.path.join(d, f)
+                rel = os.path.relpath(p, REPO)
+                seen.add(rel)
+                try:
+                    with open(p, "rb") as fh:
+                        h = hashlib.sha256(fh.read()).hexdigest()[:20]
+                except OSError:
+                    h = None
+                if base.get(rel) != h:
+                    out.append(rel)
+    out += [r for r in base if r not in seen and "/" in r]
+    return sorted(out)
+
+
 # ---------------------------------------------------------------- librime builds
 def build_librime(flavour):
     if FLAVOUR_OVERRIDE and flavour in ("san", "plain"):
